@@ -1106,6 +1106,27 @@ func genC12(r *hysim.Rand, tier string) *hysim.Script {
 		capB := r.LogUniform(30000, P*1280*100/45) // the run lasts at least 0.45 s
 		T := P * 1280 * 1_000_000 / capB           // us
 		owd := r.LogUniform(100, max(min(150_000, T/240), 100))
+		if r.Chance(1, 6) {
+			// high bandwidth-delay product: several hundred datagrams in flight (per-packet
+			// bookkeeping has to grow while it is in use), still >= 30 round trips per phase
+			P = 40000
+			sc.Cfg["max_pkts"] = P * 3
+			capB = r.LogUniform(5_000_000, 400_000_000)
+			owd = int64(r.Range(280, 330)) * 1280 * 1_000_000 / capB / 2
+			T = P * 1280 * 1_000_000 / capB
+			sc.Cfg["high_bdp"] = 1
+			if r.Chance(1, 8) {
+				// a path whose bandwidth-delay product exceeds the maximum window: the window has to
+				// stop at the maximum while the start-up phase is still growing it (too few round
+				// trips for the throughput oracle, which skips itself; the invariants are checked)
+				P = 70000
+				sc.Cfg["max_pkts"] = P * 2
+				capB = r.LogUniform(500_000_000, 5_000_000_000)
+				owd = r.Range64(30, 60) * 1_000_000 * 1_000_000 / capB / 2 // BDP 30..60 MB
+				T = max(P*1280*1_000_000/capB, 40*owd)
+				sc.Cfg["high_bdp"] = 2
+			}
+		}
 		sc.Ops = append(sc.Ops, hysim.Op{K: "path", A: []int64{capB, owd, 1 << 40, 0, 0, 1, 0, r.Pick64(0, 0, 1000), r.Pick64(2, 2, 1)}})
 		sc.Ops = append(sc.Ops, hysim.Op{K: "app", A: []int64{P * 1280 * 2, 0}})
 		sc.Ops = append(sc.Ops, hysim.Op{K: "run", A: []int64{T / 4}})
